@@ -165,6 +165,7 @@ std::vector<double> SimBackend::VarVec(const char* lenkey, double shift) const {
 
 mp::ArrayRef<double> SimBackend::PrimalSolution() {
   Call("PrimalSolution");
+  MaybeThrow("PrimalSolution");
   return VarVec("primal");
 }
 
@@ -204,11 +205,13 @@ mp::pre::ValueMapInt SimBackend::ConMapInt(int salt, bool iis) const {
 
 mp::pre::ValueMapDbl SimBackend::DualSolution() {
   Call("DualSolution");
+  MaybeThrow("DualSolution");
   return ConMapDbl(0.0);
 }
 
 mp::ArrayRef<double> SimBackend::GetObjectiveValues() {
   Call("GetObjectiveValues");
+  MaybeThrow("GetObjectiveValues");
   long n = script_int("objvals", 1);
   std::vector<double> v;
   for (long i = 0; i < n; ++i) v.push_back(script_dbl("objval", 777.25) + i);
@@ -277,6 +280,7 @@ void SimBackend::MarkLazyOrUserCuts(mp::ArrayRef<int> lazyVals) {
 
 mp::SolutionBasis SimBackend::GetBasis() {
   Call("GetBasis");
+  MaybeThrow("GetBasis");
   if (script_str("basis", "tags") == "none") return {};
   int salt = (int)script_int("basis_salt", 0);
   std::vector<int> varstt(M().vars.size());
@@ -322,6 +326,7 @@ void SimBackend::VarPriorities(mp::ArrayRef<int> pri) {
 
 mp::ArrayRef<double> SimBackend::Ray() {
   Call("Ray");
+  MaybeThrow("Ray");
   if (script_str("rays", "tags") == "none") return {};
   auto r = VarVec("ray_len", 50000.0);
   auto mv = GetValuePresolver().PostsolveSolution({r});
@@ -331,6 +336,7 @@ mp::ArrayRef<double> SimBackend::Ray() {
 
 mp::ArrayRef<double> SimBackend::DRay() {
   Call("DRay");
+  MaybeThrow("DRay");
   if (script_str("rays", "tags") == "none") return {};
   std::vector<double> fd(M().n_in_group(mp::CG_Linear));
   for (size_t i = 0; i < fd.size(); ++i) fd[i] = ConTag(mp::CG_Linear, (int)i) + 50000.0;
@@ -347,6 +353,7 @@ void SimBackend::ComputeIIS() {
 
 mp::IIS SimBackend::GetIIS() {
   Call("GetIIS");
+  MaybeThrow("GetIIS");
   int salt = (int)script_int("iis_salt", 1);
   std::vector<int> variis(M().vars.size());
   for (size_t k = 0; k < variis.size(); ++k) variis[k] = IISTag(salt, (int)k);
@@ -357,6 +364,7 @@ mp::IIS SimBackend::GetIIS() {
 
 mp::SensRangesPresolved SimBackend::GetSensRangesPresolved() {
   Call("GetSensRangesPresolved");
+  MaybeThrow("GetSensRangesPresolved");
   mp::SensRangesPresolved r;
   int nv = (int)M().vars.size();
   int nc = M().n_in_group(mp::CG_Linear);
